@@ -18,6 +18,7 @@ def c08_oracle(case, obs):
     batch = 0
     last_view = {}
     recv_seq = []
+    due_step = {}     # id -> step in which a manually delivered message must be handed over
     for ev in tl:
         k = ev[0]
         if k == "call":
@@ -25,6 +26,8 @@ def c08_oracle(case, obs):
             p = pair(a, b)
             if name == "hold":
                 held_link[p] = True
+                for i in [i for i, m in st.items() if pair(m["src"], m["dst"]) == p and m.get("resched") == t]:
+                    due_step.pop(i, None)      # re-held before the tick
                 for i, m in st.items():
                     # still in `sent`: latency not elapsed, or rescheduled (release / manual
                     # delivery) with no tick or send on the link since
@@ -78,6 +81,7 @@ def c08_oracle(case, obs):
                     st[i]["state"] = "flight"
                     st[i]["mature"] = t if st[i]["mature"] is None else min(t, st[i]["mature"])
                     st[i]["resched"] = t
+                    due_step[i] = t // tick        # matures at the tick of this very step
         elif k == "recv":
             _, h, i, step, el, frm = ev
             m = st.get(i)
@@ -91,6 +95,8 @@ def c08_oracle(case, obs):
                 out.append(("message %d (h%d->h%d) delivered to h%d at step %d while its link is held and it was neither released nor manually delivered" % (i, m["src"], m["dst"], h, step), None))
             elif m["state"] == "flight" and m["mature"] > now:
                 out.append(("message %d delivered at step %d (link time %d ns) before its latency elapsed (%d ns)" % (i, step, now, m["mature"]), None))
+            if i in due_step and step > due_step[i]:
+                out.append(("message %d was delivered manually through Sim::links before step %d but was handed to h%d only at step %d" % (i, due_step[i], h, step), None))
             if m["dst"] != h or m["src"] != frm:
                 out.append(("message %d from h%d to h%d arrived at h%d reported from h%d" % (i, m["src"], m["dst"], h, frm), None))
             m["state"] = "received"
